@@ -80,17 +80,20 @@ def run_history(channel, tx_delays, rx_delays, init_delay, chunks, rx_strings,
     rig = Rig(channel)
     try:
         return _run(rig, tx_delays, rx_delays, init_delay, chunks,
-                    rx_strings, rx_gaps, res, desc)
+                    rx_strings, rx_gaps, res, desc,
+                    init_rr=desc.get("init_rr", 0))
     finally:
         rig.close()
 
 
 def _run(rig, tx_delays, rx_delays, init_delay, chunks, rx_strings, rx_gaps,
-         res, desc):
+         res, desc, init_rr=0):
     d = rig.data
     dev = rig.dev
-    # terminal state
-    status = 0                   # bit0 tx_accept, bit1 rx_request, bit2 init
+    # terminal state; the receive-request toggle is not reset by an
+    # initialisation: a second session may start with it set
+    status = 2 if init_rr else 0  # bit0 tx_accept, bit1 rx_request, bit2 init
+    d[rig.inb] = status
     tx_pending = None            # (string, cycles left)
     tx_seen = []                 # strings accepted by the terminal
     tx_toggles = 0
@@ -161,7 +164,7 @@ def _run(rig, tx_delays, rx_delays, init_delay, chunks, rx_strings, rx_gaps,
             rx_wait = None
             rx_done += 1
             rx_gap = rx_gaps[rx_done % len(rx_gaps)] if rx_gaps else 0
-        elif rx_wait is not None and racc != ((status >> 1) & 1):
+        elif rx_wait is not None:
             rx_wait[1] += 1
             if rx_wait[1] > 6:
                 return fail("unexplained:receive-not-accepted",
@@ -243,6 +246,7 @@ def run_shard(params):
         rxs = [payload(rng.choice([1, 22, rng.randint(1, 22)]))
                for _ in range(rng.randint(1, ntr))]
         desc = dict(channel=channel, tx_delays=txd, rx_gaps=rxg,
+                    init_rr=rng.choice([0, 0, 1]),
                     init_delay=initd, chunks=[c.hex() for c in chunks],
                     rx_strings=[s.hex() for s in rxs])
         ok = run_history(channel, txd, [0], initd, chunks, rxs, rxg, res,
